@@ -1,0 +1,12 @@
+//go:build !verif
+
+package genetics
+
+// The verification hooks are compiled out unless the `verif` build tag is set.
+
+func verifSpeciated(_ *Population, _ *Organism)                  {}
+func verifPrepared(_ *Population, _ []*Species, _ int)           {}
+func verifReproduceStart(_ *Species, _ *Population, _ int)       {}
+func verifReproduceEnd(_ *Species, _ *Population, _ []*Organism) {}
+func verifInnovationStored(_ *Population, _ Innovation)          {}
+func verifYield(_ string)                                        {}
